@@ -199,7 +199,7 @@ def eval_object(case):
                 getattr(o, '_len', None))
     try:
         if cache:
-            r = history.bfs(fresh, lambda st, h: qs, step, check, canon, max_depth=3 if thorough else 2)
+            r = history.bfs(fresh, lambda st, h: qs, step, check, canon, max_depth=4 if thorough else 2)
             trans, states = r.transitions, r.states
             vs = r.violations
             for kset in r.returns.values():
@@ -321,7 +321,7 @@ def run(ctx):
     ctx.coverage_extra.update({
         'states': ctx.counts['states'],
         'traces_validated_against_impl': ctx.counts['transitions'],
-        'bounds': {'history_depth_cached': 3 if ctx.thorough else 2, 'uncached': 'all single queries + all ordered pairs of a reduced menu',
+        'bounds': {'history_depth_cached': 4 if ctx.thorough else 2, 'uncached': 'all single queries + all ordered pairs of a reduced menu',
                    'objects': OBJECTS},
         'rule': 'BFS over query histories per object; canonical state (cache length, complete flag, known length); every answer compared '
                 'with list operations on L; distinct_answers counts distinct observed return values (vacuity indicator)',
